@@ -114,6 +114,10 @@ func escape(s string) string {
 }
 
 func isNumeric(s string) bool {
+	// JSON numbers have no leading zeros ("007" must stay a string)
+	if len(s) > 1 && s[0] == '0' && s[1] != '.' {
+		return false
+	}
 	i := 0
 	for ; i < len(s); i++ {
 		r := s[i]
